@@ -10,7 +10,7 @@
    gives its busy slot back).  `assigned s` = every task handed over so far by ANY thread.
    Tie to the C code: trace validation of the real pool under the scheduler shim (checks/C06.py). *)
 From Coq Require Import List ZArith Bool Arith Permutation.
-From MPSV Require Import Conc.PoolModel Conc.PoolWitness Conc.PoolProps Conc.PoolNested Conc.PoolProgress Conc.PoolRank Conc.PoolAsync.
+From MPSV Require Import Conc.PoolModel Conc.PoolWitness Conc.PoolProps Conc.PoolNested Conc.PoolChk Conc.PoolProgress Conc.PoolRank Conc.PoolAsync.
 Import ListNotations.
 
 (* nothing is lost or duplicated: the tasks handed over are, as a multiset, the ones still with the
@@ -225,6 +225,14 @@ Theorem C06_pool_async_once : forall (A : Type) (body : task -> list A) tr s t,
   (pc0 s = CRet EWaitRet -> interp body tr = body t).
 Proof. exact @pool_async_once. Qed.
 Print Assumptions C06_pool_async_once.
+
+(* the executable invariants the trace validator evaluates in every state of every explored run (bin/pool:
+   chk_all = conservation, busy_counter, barrier, final state) are consequences of the theorems above: on a
+   trace the model accepts they cannot fail; in the check they cross-check extraction and driver *)
+Theorem C06_pool_chk_all_sound : forall tr s,
+  (run init tr = Some s \/ run init_r tr = Some s) -> chk_all s = true.
+Proof. exact pool_chk_all_sound. Qed.
+Print Assumptions C06_pool_chk_all_sound.
 
 (* ---- non-vacuity: the hypotheses are met by concrete, non-trivial traces ---- *)
 (* a full round (new 2; two tasks; wait; free) is a trace of the model, also of the disciplined one,
